@@ -138,7 +138,7 @@ def reframe_side(plan, sim):
     if integration == "rdflib":
         sim.count("rdflib_runs")
     if plan["source"] == "real":
-        data = nodes.serialize(plan["cfg"], plan["ops"], None)
+        data = nodes.serialize_input(plan["cfg"], plan["ops"], None)
     else:
         data, _, _, _ = c04.build_stream(plan, sim)
     base_frames = wire.read_stream(data, True)
